@@ -16,6 +16,10 @@
 //! lc=<loop_count(1)>.<loop_count(2)>.<loop_count(usize::MAX)> cb=<current_builtin().is_special> st=<exit status>
 //! dv=<divert>`; oracle: POSIX's reading evaluated on the result (levels never exceed the visible loops nor the
 //! operand; an error interrupts iff the innermost built-in frame is special).
+//! An optional sixth token of `bi exit` lines, four 0/1 digits `<interactive option><posixlycorrect><SuspendedJobsGuardConfig
+//! stored><a stopped job in env.jobs>`, sets up the suspended-jobs guard of `exit` (absent = 0000).
+//! `id <v|V|t> <aliases name=replacement (hex) or .> <the six tokens of a search case>` — `command -v`, `command -V`
+//! and `type` (module `identify_family`): `Identify::execute` / `type::main` on an Env built from the case.
 //! `dv <a> <b>` — `Ord for Divert`: `cmp=<lt|eq|gt> max=<a.max(b)>`; oracle: `max` is one of the two and not
 //! smaller than either.
 
@@ -25,7 +29,11 @@ use yverif::rng::Rng;
 
 /// one case of either family
 fn run_one(case: &str) {
-    if case.starts_with("bi ") || case.starts_with("dv ") {
+    if case.starts_with("id ") {
+        let obs = yverif::proto::guarded(|| identify_family::run(case));
+        let oracle = identify_family::oracle(case, &obs);
+        emit(case, &obs, &oracle);
+    } else if case.starts_with("bi ") || case.starts_with("dv ") {
         let obs = yverif::proto::guarded(|| builtin_family::run(case));
         let oracle = builtin_family::oracle(case, &obs);
         emit(case, &obs, &oracle);
@@ -63,6 +71,16 @@ fn main() {
     let mut brng = Rng::new(o.seed ^ 0xB1_B1);
     for k in 0..nb {
         let case = if k % 6 == 5 { builtin_family::generate_dv(&mut brng) } else { builtin_family::generate(&mut brng) };
+        if k % o.shard.1 != o.shard.0 {
+            continue;
+        }
+        run_one(&case);
+    }
+    // `command -v` / `command -V` / `type` over the environments of the search family
+    let ni = if o.thorough() { 40_000 } else { 2_000 };
+    let mut irng = Rng::new(o.seed ^ 0x1DE7);
+    for k in 0..ni {
+        let case = identify_family::generate(&mut irng);
         if k % o.shard.1 != o.shard.0 {
             continue;
         }
@@ -158,6 +176,24 @@ mod builtin_family {
             args.push(enc_str(&w));
         }
         let args = if args.is_empty() { ".".to_string() } else { args.join(",") };
+        if which == "exit" && rng.next() % 2 == 0 {
+            // the suspended-jobs guard: mostly the refusing combination with one condition knocked out
+            let mut g = [true, false, true, true];
+            match rng.next() % 8 {
+                0 => g[0] = false,
+                1 => g[1] = true,
+                2 => g[2] = false,
+                3 => g[3] = false,
+                4 => {
+                    for b in g.iter_mut() {
+                        *b = rng.next() % 2 == 0;
+                    }
+                }
+                _ => {}
+            }
+            let gs: String = g.iter().map(|b| if *b { '1' } else { '0' }).collect();
+            return format!("bi {which} {} {status} {stack} {args} {gs}", portable as u8);
+        }
         format!("bi {which} {} {status} {stack} {args}", portable as u8)
     }
 
@@ -240,9 +276,20 @@ mod builtin_family {
         which: String,
         stack: Vec<char>, // top first
         args: Vec<String>,
+        guard: [bool; 4], // interactive, posixlycorrect, guard configured, a stopped job
     }
 
     fn parse_bi(toks: &[&str]) -> Option<(Case, bool, i32)> {
+        let (toks, guard) = match toks {
+            [five @ .., g] if toks.len() == 6 => {
+                let b: Vec<bool> = g.chars().map(|c| c == '1').collect();
+                if b.len() != 4 {
+                    return None;
+                }
+                (five, [b[0], b[1], b[2], b[3]])
+            }
+            _ => (toks, [false; 4]),
+        };
         let [which, portable, status, stack, args] = toks else { return None };
         let stack: Vec<char> = if *stack == "." { vec![] } else { stack.chars().collect() };
         let args = if *args == "." {
@@ -250,7 +297,7 @@ mod builtin_family {
         } else {
             args.split(',').map(dec_str).collect::<Option<Vec<_>>>()?
         };
-        Some((Case { which: which.to_string(), stack, args }, *portable == "1", status.parse().ok()?))
+        Some((Case { which: which.to_string(), stack, args, guard }, *portable == "1", status.parse().ok()?))
     }
 
     pub fn run(case: &str) -> String {
@@ -273,6 +320,22 @@ mod builtin_family {
             env.options.set(Portable, On);
         }
         env.exit_status = ExitStatus(status);
+        if c.guard[0] {
+            env.options.set(yash_env::option::Option::Interactive, On);
+        }
+        if c.guard[1] {
+            env.options.set(yash_env::option::Option::PosixlyCorrect, On);
+        }
+        if c.guard[2] {
+            env.any.insert(Box::new(yash_env::input::SuspendedJobsGuardConfig::with_message("stopped jobs\n")));
+        }
+        // a running job is always there; the stopped one only when asked for
+        env.jobs.insert(yash_env::job::Job::new(yash_env::job::Pid(41)));
+        if c.guard[3] {
+            let mut job = yash_env::job::Job::new(yash_env::job::Pid(42));
+            job.state = yash_env::job::ProcessState::stopped(yash_env::system::r#virtual::SIGTSTP);
+            env.jobs.insert(job);
+        }
         let Some(frames) = c.stack.iter().rev().map(|&ch| frame_of(ch)).collect::<Option<Vec<Frame>>>() else {
             return "bad-case".into();
         };
@@ -381,6 +444,23 @@ mod builtin_family {
                     error("error of break/continue")
                 }
             }
+            "exit" if c.guard != [false; 4] => {
+                // docs/src/builtins/exit.md: in an interactive shell with suspended jobs and without `-f`, `exit`
+                // returns exit status 1 without exiting; `-f` exits
+                let refused = st == "1" && dv == "I-";
+                let interactive = c.guard[0] && !c.stack.contains(&'S');
+                if refused && !(interactive && c.guard[3]) {
+                    return "FAIL:exit refused although the shell is not interactive or no job is stopped".into();
+                }
+                let forced = c.args.first().is_some_and(|a| a == "-f" || a == "--force");
+                if refused && forced {
+                    return "FAIL:exit -f refused".into();
+                }
+                if well_formed && interactive && c.guard[3] && c.guard[2] && !c.guard[1] && !refused {
+                    return "FAIL:exit went through in an interactive shell with a stopped job".into();
+                }
+                "ok".into()
+            }
             _ => {
                 let tag = if c.which == "return" { "R" } else { "X" };
                 if well_formed {
@@ -402,5 +482,226 @@ mod builtin_family {
                 }
             }
         }
+    }
+}
+
+/// `command -v`, `command -V`, `type` (yash-builtin/src/command/identify.rs, command/search.rs, type.rs) on an
+/// environment described like a `search` case: built-ins of the five types, functions, `$PATH`, executable files,
+/// `posixlycorrect`/`portable`, plus aliases; the `IsKeyword` hook is the one yash-cli installs.
+mod identify_family {
+    use futures_util::FutureExt;
+    use std::cell::RefCell;
+    use std::rc::Rc;
+    use yash_env::Env;
+    use yash_env::builtin::{Builtin, Type};
+    use yash_env::function::{Function, FunctionBody};
+    use yash_env::option::{Option as Opt, State::On};
+    use yash_env::semantics::{ExitStatus, Field};
+    use yash_env::source::Location;
+    use yash_env::system::r#virtual::{FileBody, Inode, VirtualSystem};
+    use yash_env::system::{Concurrent, Mode};
+    use yash_env::variable::{Scope, Value};
+    use yverif::proto::{dec_str, enc_str};
+    use yverif::rng::Rng;
+
+    type S = Rc<Concurrent<VirtualSystem>>;
+    const NAMES: [&str; 8] = ["na", "nb", ":", "eval", "source", "x/y", "/bin/na", "/opt/nb"];
+    const KEYWORDS: [&str; 6] = ["if", "{", "!", "esac", "function", "[["];
+
+    pub fn generate(rng: &mut Rng) -> String {
+        let base = yverif::prog::search_family::generate(rng);
+        let mut toks: Vec<String> = base.split(' ').skip(1).map(|s| s.to_string()).collect();
+        if rng.next() % 8 == 0 {
+            // a keyword as the name (also one that is a function or an alias at the same time)
+            let k = KEYWORDS[(rng.next() % KEYWORDS.len() as u64) as usize];
+            toks[5] = enc_str(k);
+        }
+        let mut aliases = vec![];
+        for n in ["na", "nb", "if"] {
+            if rng.next() % 5 == 0 {
+                let r = ["nb", "echo", "na"][(rng.next() % 3) as usize];
+                aliases.push(format!("{}={}", enc_str(n), enc_str(r)));
+            }
+        }
+        let aliases = if aliases.is_empty() { ".".to_string() } else { aliases.join(",") };
+        let mode = ["v", "v", "V", "t"][(rng.next() % 4) as usize];
+        format!("id {mode} {aliases} {}", toks.join(" "))
+    }
+
+    #[derive(Debug)]
+    struct Body;
+    impl std::fmt::Display for Body {
+        fn fmt(&self, f: &mut std::fmt::Formatter<'_>) -> std::fmt::Result {
+            write!(f, "{{ :; }}")
+        }
+    }
+    impl FunctionBody<S> for Body {
+        async fn execute(&self, _env: &mut Env<S>) -> yash_env::semantics::Result {
+            std::ops::ControlFlow::Continue(())
+        }
+    }
+
+    fn dummy(_env: &mut Env<S>, _a: Vec<Field>) -> std::pin::Pin<Box<dyn Future<Output = yash_env::builtin::Result> + '_>> {
+        Box::pin(async { ExitStatus(0).into() })
+    }
+
+    fn dec_list(t: &str) -> Option<Vec<String>> {
+        if t == "." {
+            return Some(vec![]);
+        }
+        t.split(',').map(dec_str).collect()
+    }
+
+    struct Case {
+        mode: String,
+        name: String,
+    }
+
+    fn build(case: &str) -> Option<(Env<S>, Rc<RefCell<yash_env::system::r#virtual::SystemState>>, Case)> {
+        let t: Vec<&str> = case.split(' ').collect();
+        if t.len() != 9 || t[0] != "id" {
+            return None;
+        }
+        let system = VirtualSystem::new();
+        let state = Rc::clone(&system.state);
+        let mut env: Env<S> = Env::with_system(Rc::new(Concurrent::new(system)));
+        env.any.insert(Box::new(yash_env::parser::IsKeyword::<S>(|_env, word| {
+            use std::str::FromStr;
+            yash_syntax::parser::lex::Keyword::from_str(word).is_ok()
+        })));
+        if t[2] != "." {
+            for a in t[2].split(',') {
+                let (n, r) = a.split_once('=')?;
+                env.aliases.insert(yash_env::alias::HashEntry::new(dec_str(n)?, dec_str(r)?, false, Location::dummy("alias")));
+            }
+        }
+        let opts: Vec<char> = t[3].chars().collect();
+        if opts.first() == Some(&'1') {
+            env.options.set(Opt::PosixlyCorrect, On);
+        }
+        if opts.get(1) == Some(&'1') {
+            env.options.set(Opt::Portable, On);
+        }
+        let (kind, dl) = t[4].split_once(':')?;
+        let dirs = dec_list(dl)?;
+        match kind {
+            "u" => {}
+            "a" => {
+                let mut path = env.variables.get_or_new("PATH", Scope::Global);
+                let _ = path.assign(Value::array(dirs), None);
+            }
+            _ => {
+                let mut path = env.variables.get_or_new("PATH", Scope::Global);
+                let _ = path.assign(dirs.join(":"), None);
+            }
+        }
+        for p in dec_list(t[5])? {
+            let mut inode = Inode::new(Vec::new());
+            inode.body = FileBody::Regular { content: vec![], is_native_executable: true };
+            inode.permissions.set(Mode::USER_EXEC, true);
+            state.borrow_mut().file_system.save(p.as_str(), Rc::new(RefCell::new(inode))).ok()?;
+        }
+        if t[6] != "." {
+            for b in t[6].split(',') {
+                let (n, ty) = b.split_once(':')?;
+                let n = dec_str(n)?;
+                let ty = match ty {
+                    "s" => Type::Special,
+                    "m" => Type::Mandatory,
+                    "e" => Type::Elective,
+                    "x" => Type::Extension,
+                    "u" => Type::Substitutive,
+                    _ => return None,
+                };
+                let key: &'static str = NAMES.iter().find(|k| **k == n.as_str()).copied()?;
+                env.builtins.insert(key, Builtin::new(ty, dummy));
+            }
+        }
+        for f in dec_list(t[7])? {
+            let _ = env.functions.define(Function::new(f, Rc::new(Body) as Rc<dyn yash_env::function::FunctionBodyObject<S>>, Location::dummy("f")));
+        }
+        {
+            use yash_env::system::Chdir;
+            let _ = env.system.chdir(c"/");
+        }
+        Some((env, state, Case { mode: t[1].to_string(), name: dec_str(t[8])? }))
+    }
+
+    pub fn run(case: &str) -> String {
+        let Some((mut env, state, c)) = build(case) else { return "bad-case".into() };
+        let result = if c.mode == "t" {
+            yash_builtin::r#type::main(&mut env, Field::dummies([c.name.as_str()])).now_or_never()
+        } else {
+            let mut id = yash_builtin::command::Identify::default();
+            id.names = Field::dummies([c.name.as_str()]);
+            id.verbose = c.mode == "V";
+            id.execute(&mut env).now_or_never()
+        };
+        let Some(result) = result else { return "PENDING".into() };
+        let st = state.borrow();
+        let read = |fd: &str| -> String {
+            let f = st.file_system.get(fd).ok();
+            match f {
+                Some(i) => match &i.borrow().body {
+                    FileBody::Regular { content, .. } => String::from_utf8_lossy(content).to_string(),
+                    _ => String::new(),
+                },
+                None => String::new(),
+            }
+        };
+        let out = read("/dev/stdout");
+        let err = read("/dev/stderr");
+        let body = if c.mode == "v" {
+            if !err.is_empty() {
+                return format!("STDERR({})", enc_str(&err));
+            }
+            match out.strip_suffix('\n') {
+                Some(line) if !line.contains('\n') => format!("out={}", enc_str(line)),
+                None if out.is_empty() => "out=-".to_string(),
+                _ => format!("GARBLED({})", enc_str(&out)),
+            }
+        } else {
+            // `<name>: <description>[ at <path>]`: the class words only
+            let kind = match out.strip_suffix('\n') {
+                None if out.is_empty() => "-".to_string(),
+                Some(line) => {
+                    let d = line.rsplit_once(": ").map_or(line, |x| x.1);
+                    let d = d.split(" at ").next().unwrap_or(d);
+                    match d {
+                        "keyword" => "keyword".into(),
+                        "function" => "function".into(),
+                        "external utility" => "external".into(),
+                        "special built-in" => "builtin-s".into(),
+                        "mandatory built-in" => "builtin-m".into(),
+                        "elective built-in" => "builtin-e".into(),
+                        "extension built-in" => "builtin-x".into(),
+                        "substitutive built-in" => "builtin-u".into(),
+                        d if d.starts_with("alias for ") => "alias".into(),
+                        d => format!("?({})", enc_str(d)),
+                    }
+                }
+                _ => format!("GARBLED({})", enc_str(&out)),
+            };
+            if (kind == "-") == err.is_empty() {
+                return format!("STDERR-MISMATCH({} {})", kind, enc_str(&err));
+            }
+            format!("kind={kind}")
+        };
+        format!("{body} st={}", result.exit_status().0)
+    }
+
+    /// POSIX `command -v`: exit status 0 and something printed iff the name was found; for a name that the shell
+    /// would run from `$PATH` the answer is an absolute path
+    pub fn oracle(_case: &str, obs: &str) -> String {
+        let field = |k: &str| obs.split(' ').find_map(|f| f.strip_prefix(k)).map(|s| s.to_string());
+        let Some(st) = field("st=") else { return "-".into() };
+        let printed = field("out=").or(field("kind=")).is_some_and(|v| v != "-");
+        if printed != (st == "0") {
+            return "FAIL:exit status and output disagree".into();
+        }
+        if st != "0" && st != "1" {
+            return "FAIL:exit status is neither 0 nor 1".into();
+        }
+        "ok".into()
     }
 }
